@@ -46,19 +46,24 @@ def h_text(ctx, fmt):
     n = 18 if fmt == "fixed" else 8
     rc = ctx.choose("deferred", ["current", "deferred"]) + (0x70 if fmt == "fixed" else 0x72)
     key, asc, ascq = ctx.int("key", 4), ctx.int("asc", 8), ctx.int("ascq", 8)
-    buf = bytearray(n)
-    if ctx.symbolic:
-        from symx.values import SymBytes
-        buf = SymBytes([0] * n)
-    buf[0] = rc
-    if fmt == "fixed":
-        buf[2], buf[7], buf[12], buf[13] = key, 10, asc, ascq
-    else:
-        buf[1], buf[2], buf[3] = key, asc, ascq
+    def mk(k):
+        b = bytearray(n)
+        if ctx.symbolic:
+            from symx.values import SymBytes
+            b = SymBytes([0] * n)
+        b[0] = rc
+        if fmt == "fixed":
+            b[2], b[7], b[12], b[13] = k, 10, asc, ascq
+        else:
+            b[1], b[2], b[3] = k, asc, ascq
+        return b
+    buf = mk(key)
     mode = ctx.choose("vary", ["sense-key", "asc/ascq"])
     if mode == 0:
         ctx.assume(asc == 0x29)
         ctx.assume(ascq == 0x00)
+        # history: another error of the same format and ASC/ASCQ but a different sense key was printed just before
+        ctx.attempt(lambda: str(SCSICheckCondition(mk((key + 1) & 15))))
     else:
         ctx.assume(key == 6)
     st, e = ctx.attempt(SCSICheckCondition, buf)
